@@ -285,6 +285,9 @@ func (d *refDriver) Run(cc core.Case) core.Outcome {
 	}
 	o.Count("probe.valid_clean_and_equal_to_reference", 1)
 	o.Count("probe.history_"+c.History, 1)
+	if cp.AugLate > 0 {
+		o.Count("probe.augment_applied_after_implicit_case_insertion", 1)
+	}
 	if cp.AugPasses > 2 {
 		o.Count("probe.augment_applied_on_retry_pass_ge_2", 1)
 	}
